@@ -1,4 +1,5 @@
 #include "q120h.h"
+#include <pthread.h>
 
 const char* const q120_kernel_name[N_KERNELS] = {"q120_vec_mat1col_product_baa", "q120_vec_mat1col_product_bbb", "q120_vec_mat1col_product_bbc", "q120x2_vec_mat1col_product_bbc", "q120x2_vec_mat2cols_product_bbc", "q120_vec_mat1col_product_bbc(old)", "q120x2_vec_mat2cols_product_bbc(old)"};
 // not declared in any header of the library
@@ -178,4 +179,160 @@ uint64_t q120_product_check(q120_kernel_t k0, int avx2, uint64_t ell, int famx, 
   gb_free(&gy);
   gb_free(&gr);
   return lanes;
+}
+
+// tables built while other threads build theirs must be the same tables: worst-case transforms run with them have to
+// be congruent to the ones run with the sequentially built tables
+typedef struct {
+  uint64_t n;
+  q120_ntt_precomp *f, *i;
+  pthread_barrier_t* bar;
+} cbuild_t;
+static void* cbuild_worker(void* arg) {
+  cbuild_t* c = arg;
+  pthread_barrier_wait(c->bar);
+  c->f = q120_new_ntt_bb_precomp(c->n);
+  c->i = q120_new_intt_bb_precomp(c->n);
+  return 0;
+}
+uint64_t q120_concurrent_build_check(int T, rng_t* r, q120_ntt_precomp* const* seq_ntt, q120_ntt_precomp* const* seq_intt) {
+  cbuild_t c[16];
+  pthread_t tid[16];
+  pthread_barrier_t bar;
+  pthread_barrier_init(&bar, 0, (unsigned)T);
+  for (int t = 0; t < T; t++) {
+    c[t].n = 1ull << (1 + rng_u64(r) % 14);
+    c[t].bar = &bar;
+    pthread_create(&tid[t], 0, cbuild_worker, &c[t]);
+  }
+  for (int t = 0; t < T; t++) pthread_join(tid[t], 0);
+  pthread_barrier_destroy(&bar);
+  uint64_t lanes = 0;
+  for (int t = 0; t < T; t++) {
+    const uint64_t n = c[t].n;
+    const unsigned lg = ilog2(n);
+    uint64_t* x = malloc(n * 32);
+    uint64_t* y = malloc(n * 32);
+    for (int inv = 0; inv < 2; inv++) {
+      q120_gen_b(r, (t + inv) & 1 ? QF_ALLMAX : QF_NONCANON, n, x);
+      memcpy(y, x, n * 32);
+      if (inv) {
+        q120_intt_bb_avx2(seq_intt[lg], (q120b*)x);
+        q120_intt_bb_avx2(c[t].i, (q120b*)y);
+      } else {
+        q120_ntt_bb_avx2(seq_ntt[lg], (q120b*)x);
+        q120_ntt_bb_avx2(c[t].f, (q120b*)y);
+      }
+      for (uint64_t i = 0; i < 4 * n; i++)
+        if (x[i] % Q120[i & 3] != y[i] % Q120[i & 3]) {
+          viol("differential", "%s with a table built while %d threads were building tables: n=%" PRIu64 " lane %" PRIu64 " prime %d not congruent to the result with the table built alone", inv ? "intt" : "ntt", T, n, i / 4, (int)(i & 3));
+          break;
+        }
+      lanes += 4 * n;
+    }
+    free(x);
+    free(y);
+    q120_del_ntt_bb_precomp(c[t].f);
+    q120_del_intt_bb_precomp(c[t].i);
+  }
+  return lanes;
+}
+
+// every product kernel called by T threads at once on private operands (shared read-only precomputations): each thread
+// checks its own results against the exact sum of products. Returns the number of wrong results (reported by the caller).
+typedef struct {
+  uint64_t seed;
+  int iters;
+  uint64_t wrong, calls;
+  int first_bad_kernel, first_bad_avx2;
+  q120_mat1col_product_baa_precomp* baa;
+  q120_mat1col_product_bbb_precomp* bbb;
+  q120_mat1col_product_bbc_precomp* bbc;
+  pthread_barrier_t* bar;
+} ckern_t;
+static void* ckern_worker(void* arg) {
+  ckern_t* c = arg;
+  rng_t r;
+  rng_seed(&r, c->seed, 1234);
+  enum { MAXELL = 48 };
+  uint64_t* x = malloc(MAXELL * 64);
+  uint64_t* y = malloc(MAXELL * 128);
+  uint64_t res[16];
+  pthread_barrier_wait(c->bar);
+  for (int it = 0; it < c->iters; it++) {
+    const int k0 = it % N_KERNELS;
+    int avx2 = (it / N_KERNELS) & 1;
+    if (!q120_kernel_has((q120_kernel_t)k0, avx2)) avx2 = !avx2;
+    const q120_kernel_t k = k0 == K_BBC_OLD ? K_BBC : (k0 == K_X2_2COLS_OLD ? K_X2_2COLS : (q120_kernel_t)k0);
+    const uint64_t ell = 1 + rng_u64(&r) % MAXELL;
+    const size_t xper = (k == K_X2_1COL || k == K_X2_2COLS) ? 2 : 1;
+    const size_t yper = (k == K_X2_1COL) ? 2 : (k == K_X2_2COLS ? 4 : 1);
+    const size_t nres = (k == K_X2_1COL) ? 2 : (k == K_X2_2COLS ? 4 : 1);
+    if (k == K_BAA) { q120_gen_a(&r, QF_NONCANON, ell * xper, x); q120_gen_a(&r, QF_NONCANON, ell * yper, y); }
+    else if (k == K_BBB) { q120_gen_b(&r, QF_NONCANON, ell * xper, x); q120_gen_b(&r, QF_NONCANON, ell * yper, y); }
+    else { q120_gen_b(&r, QF_NONCANON, ell * xper, x); q120_gen_c(&r, QF_NONCANON, ell * yper, (uint32_t*)y); }
+    if (k0 == K_BBC_OLD) q120_vec_mat1col_product_bbc_ref_old(c->bbc, ell, (q120b*)res, (q120b*)x, (q120c*)y);
+    else if (k0 == K_X2_2COLS_OLD) q120x2_vec_mat2cols_product_bbc_avx2_old(c->bbc, ell, (q120b*)res, (q120b*)x, (q120c*)y);
+    else switch (k) {
+      case K_BAA: (avx2 ? q120_vec_mat1col_product_baa_avx2 : q120_vec_mat1col_product_baa_ref)(c->baa, ell, (q120b*)res, (q120a*)x, (q120a*)y); break;
+      case K_BBB: (avx2 ? q120_vec_mat1col_product_bbb_avx2 : q120_vec_mat1col_product_bbb_ref)(c->bbb, ell, (q120b*)res, (q120b*)x, (q120b*)y); break;
+      case K_BBC: (avx2 ? q120_vec_mat1col_product_bbc_avx2 : q120_vec_mat1col_product_bbc_ref)(c->bbc, ell, (q120b*)res, (q120b*)x, (q120c*)y); break;
+      case K_X2_1COL: (avx2 ? q120x2_vec_mat1col_product_bbc_avx2 : q120x2_vec_mat1col_product_bbc_ref)(c->bbc, ell, (q120b*)res, (q120b*)x, (q120c*)y); break;
+      default: (avx2 ? q120x2_vec_mat2cols_product_bbc_avx2 : q120x2_vec_mat2cols_product_bbc_ref)(c->bbc, ell, (q120b*)res, (q120b*)x, (q120c*)y); break;
+    }
+    c->calls++;
+    int bad = 0;
+    for (size_t o = 0; o < nres && !bad; o++) {
+      size_t xsel = 0, ysel = 0;
+      if (k == K_X2_1COL) { xsel = o; ysel = o; }
+      if (k == K_X2_2COLS) { xsel = o & 1; ysel = o; }
+      for (int p = 0; p < 4; p++) {
+        const uint64_t q = Q120[p];
+        uint64_t acc = 0;
+        for (uint64_t i = 0; i < ell; i++) {
+          uint64_t xv = x[4 * (i * xper + xsel) + p] % q;
+          uint64_t yv = (k == K_BAA || k == K_BBB) ? y[4 * (i * yper + ysel) + p] % q : ((uint32_t*)y)[8 * (i * yper + ysel) + 2 * p] % q;
+          acc = (acc + mulmod(xv, yv, q)) % q;
+        }
+        if (res[4 * o + p] % q != acc) bad = 1;
+      }
+    }
+    if (bad) {
+      if (!c->wrong) { c->first_bad_kernel = k0; c->first_bad_avx2 = avx2; }
+      c->wrong++;
+    }
+  }
+  free(x);
+  free(y);
+  return 0;
+}
+uint64_t q120_concurrent_kernel_check(int T, rng_t* r, int iters, uint64_t* calls) {
+  ckern_t c[16];
+  pthread_t tid[16];
+  pthread_barrier_t bar;
+  pthread_barrier_init(&bar, 0, (unsigned)T);
+  q120_mat1col_product_baa_precomp* baa = q120_new_vec_mat1col_product_baa_precomp();
+  q120_mat1col_product_bbb_precomp* bbb = q120_new_vec_mat1col_product_bbb_precomp();
+  q120_mat1col_product_bbc_precomp* bbc = q120_new_vec_mat1col_product_bbc_precomp();
+  for (int t = 0; t < T; t++) {
+    memset(&c[t], 0, sizeof c[t]);
+    c[t].seed = rng_u64(r);
+    c[t].iters = iters;
+    c[t].baa = baa; c[t].bbb = bbb; c[t].bbc = bbc;
+    c[t].bar = &bar;
+    pthread_create(&tid[t], 0, ckern_worker, &c[t]);
+  }
+  uint64_t wrong = 0;
+  *calls = 0;
+  for (int t = 0; t < T; t++) {
+    pthread_join(tid[t], 0);
+    *calls += c[t].calls;
+    if (c[t].wrong) viol("oracle", "%s_%s: %" PRIu64 " of %" PRIu64 " results of thread %d not congruent to the exact sum of products while %d threads call the product kernels on private operands", q120_kernel_name[c[t].first_bad_kernel], c[t].first_bad_avx2 ? "avx2" : "ref", c[t].wrong, c[t].calls, t, T);
+    wrong += c[t].wrong;
+  }
+  pthread_barrier_destroy(&bar);
+  q120_delete_vec_mat1col_product_baa_precomp(baa);
+  q120_delete_vec_mat1col_product_bbb_precomp(bbb);
+  q120_delete_vec_mat1col_product_bbc_precomp(bbc);
+  return wrong;
 }
